@@ -2,8 +2,14 @@
 
 package main
 
-import "strconv"
+import (
+	"strconv"
+
+	"github.com/Azbesciak/RealDecisionMaker/lib/utils"
+)
 
 func itoa(i int) string { return strconv.Itoa(i) }
 
-var seededGen = func(seed int64) func() float64 { return drawsGen(seed) }
+// the generator factory main.go hands to MakeDecision and to the bias registry (the code under test); the streams
+// the MODEL receives come from math/rand directly (codec.go: draws)
+var seededGen = func(seed int64) func() float64 { return utils.RandomBasedSeedValueGenerator(seed) }
